@@ -168,6 +168,11 @@ pub fn worker<W: World>(a: &WorkerArgs) -> i32 {
                 if a.hashes {
                     let _ = writeln!(out, "R {i} {:016x}", ctx.log_hash());
                 }
+                let mut ctx = ctx;
+                if a.prop == "C07" {
+                    // C07 is a monitor over every world: only "the call did not return normally" counts
+                    ctx.failures.retain(|f| f.class().starts_with("panic"));
+                }
                 if !ctx.failures.is_empty() {
                     let fl = FailLine {
                         i,
